@@ -321,8 +321,15 @@ class C12(Engine):
                             continue
                         last_sql_inp[0] = inp.rstrip()
                     else:
-                        if "ignoredups" in hc and A and A[-1]["inp"] == inp:
-                            ent["must"] = False  # a consecutive duplicate may be dropped
+                        if "ignoredups" in hc:
+                            # a duplicate of the last STORED command may be dropped: that is the last entry that must
+                            # be stored, or any may-be-stored entry after it
+                            for prev in reversed(A):
+                                if prev["inp"] == inp:
+                                    ent["must"] = False
+                                    break
+                                if prev["must"]:
+                                    break
                         if "ignoreerr" in hc and rtn != 0:
                             ent["must"] = False
                     A.append(ent)
